@@ -20,7 +20,11 @@ import (
 func TestMain(m *testing.M) { evid.Main(m, "C06") }
 
 // buildState: a node with a chain that has precommitted > certified most of the time, optional parameter changes.
-func buildState(t *rapid.T) (*node.Node, []string) {
+func buildState(t *rapid.T) (*node.Node, []string) { return buildStateOpt(t, false) }
+
+// buildStateOpt: forPool prefers chains longer than 100 blocks with validator-set changes near the tip, because the gossip
+// validator's range rule only lets commits through once maxHeightPrecommitted exceeds 100 (see DESIGN.md, observation O3).
+func buildStateOpt(t *rapid.T, forPool bool) (*node.Node, []string) {
 	nVal := rapid.IntRange(3, 7).Draw(t, "validators")
 	g := node.DrawParams(t, nVal, false, "genesis")
 	// keep at least 3 validators so that strict signer subsets exist
@@ -35,6 +39,9 @@ func buildState(t *rapid.T) (*node.Node, []string) {
 	var hist []string
 	hist = append(hist, fmt.Sprintf("genesis validators=%v weights=%v precommit=%d cert=%d", g.Idx, g.Weights, g.Precommit, g.Cert))
 	long := rapid.IntRange(0, 9).Draw(t, "long") == 0
+	if forPool {
+		long = rapid.IntRange(0, 1).Draw(t, "longPool") == 0
+	}
 	length := rapid.IntRange(8, 30).Draw(t, "length")
 	if long {
 		length = rapid.IntRange(101, 125).Draw(t, "lengthLong") // beyond the first 100 heights (CommitRangeStored)
@@ -42,7 +49,11 @@ func buildState(t *rapid.T) (*node.Node, []string) {
 	changes := rapid.IntRange(0, 2).Draw(t, "changes")
 	changeAt := map[int]bool{}
 	for i := 0; i < changes; i++ {
-		changeAt[rapid.IntRange(2, length-1).Draw(t, "changeAt")] = true
+		if forPool && long {
+			changeAt[rapid.IntRange(length-40, length-6).Draw(t, "changeAtLate")] = true
+		} else {
+			changeAt[rapid.IntRange(2, length-1).Draw(t, "changeAt")] = true
+		}
 	}
 	for i := 1; i <= length; i++ {
 		sp := node.Spec{Script: node.Script{Salt: uint32(i % 3)}}
@@ -52,7 +63,8 @@ func buildState(t *rapid.T) (*node.Node, []string) {
 		}
 		// occasionally certify part of the chain through a block's aggregate commit
 		_, pc, cert := n.Heights()
-		if pc > cert && rapid.IntRange(0, 7).Draw(t, "agg") == 0 {
+		lateQuiet := forPool && long && i > length-50 // keep a wide uncertified range so that gossiped commits are not discarded as stale
+		if pc > cert && !lateQuiet && rapid.IntRange(0, 7).Draw(t, "agg") == 0 {
 			hi := pc
 			if nh, err := n.Exec.VerifLiskBFT().API().NextHeightBFTParameters(n.Store(), cert+1); err == nil && nh-1 < hi {
 				hi = nh - 1
@@ -286,7 +298,7 @@ func encodeCommits(cs ...*certificate.SingleCommit) []byte {
 // single commits enter the pool.
 func TestPoolSelfConsistency(t *testing.T) {
 	rapid.Check(t, func(t *rapid.T) {
-		n, hist := buildState(t)
+		n, hist := buildStateOpt(t, true)
 		defer n.Close()
 		_, pc, cert := n.Heights()
 		tip := n.Tip().Header.Height
@@ -321,37 +333,94 @@ func TestPoolSelfConsistency(t *testing.T) {
 			}
 		}
 		for i := 0; i < nMsgs; i++ {
-			h := rapid.Uint32Range(1, tip).Draw(t, "commitHeight")
-			if pc > cert && rapid.IntRange(0, 2).Draw(t, "inRange") > 0 {
-				h = rapid.Uint32Range(cert+1, pc).Draw(t, "commitHeightInRange")
+			// one gossip message carries several single commits, possibly for heights under different validator sets
+			per := rapid.IntRange(1, 4).Draw(t, "commitsInMessage")
+			var batch []*certificate.SingleCommit
+			var desc []string
+			for j := 0; j < per; j++ {
+				h := rapid.Uint32Range(1, tip).Draw(t, "commitHeight")
+				if pc > cert && rapid.IntRange(0, 2).Draw(t, "inRange") > 0 {
+					h = rapid.Uint32Range(cert+1, pc).Draw(t, "commitHeightInRange")
+				}
+				if pc > 100 && rapid.Bool().Draw(t, "recent") {
+					h = rapid.Uint32Range(pc-45, pc).Draw(t, "commitHeightRecent") // inside the gossip range, around late set changes
+				}
+				hd, err := n.Chain.DataAccess().GetBlockHeaderByHeight(h)
+				if err != nil {
+					t.Fatalf("%v", err)
+				}
+				signer := rapid.IntRange(0, 9).Draw(t, "signer")
+				kind := rapid.SampledFrom([]string{"valid", "valid", "valid", "bad-signature", "wrong-block", "other-chain"}).Draw(t, "commitKind")
+				var sc *certificate.SingleCommit
+				switch kind {
+				case "valid":
+					sc = certificate.NewSingleCommit(hd, keys[signer].Addr, node.ChainID, keys[signer].BLSPriv)
+				case "bad-signature":
+					sc = certificate.NewSingleCommit(hd, keys[signer].Addr, node.ChainID, keys[(signer+1)%10].BLSPriv)
+					invalidOffered = true
+				case "wrong-block":
+					fake := *hd
+					fake.ID = bytes.Repeat([]byte{9}, 32)
+					sc = certificate.NewSingleCommit(&fake, keys[signer].Addr, node.ChainID, keys[signer].BLSPriv)
+					invalidOffered = true
+				case "other-chain":
+					sc = certificate.NewSingleCommit(hd, keys[signer].Addr, []byte{4, 0, 0, 0xa}, keys[signer].BLSPriv)
+					invalidOffered = true
+				}
+				batch = append(batch, sc)
+				desc = append(desc, fmt.Sprintf("h=%d signer=%d %s", h, signer, kind))
 			}
-			hd, err := n.Chain.DataAccess().GetBlockHeaderByHeight(h)
-			if err != nil {
-				t.Fatalf("%v", err)
-			}
-			signer := rapid.IntRange(0, 9).Draw(t, "signer")
-			kind := rapid.SampledFrom([]string{"valid", "valid", "valid", "bad-signature", "wrong-block", "other-chain"}).Draw(t, "commitKind")
-			var sc *certificate.SingleCommit
-			switch kind {
-			case "valid":
-				sc = certificate.NewSingleCommit(hd, keys[signer].Addr, node.ChainID, keys[signer].BLSPriv)
-			case "bad-signature":
-				sc = certificate.NewSingleCommit(hd, keys[signer].Addr, node.ChainID, keys[(signer+1)%10].BLSPriv)
-				invalidOffered = true
-			case "wrong-block":
-				fake := *hd
-				fake.ID = bytes.Repeat([]byte{9}, 32)
-				sc = certificate.NewSingleCommit(&fake, keys[signer].Addr, node.ChainID, keys[signer].BLSPriv)
-				invalidOffered = true
-			case "other-chain":
-				sc = certificate.NewSingleCommit(hd, keys[signer].Addr, []byte{4, 0, 0, 0xa}, keys[signer].BLSPriv)
-				invalidOffered = true
-			}
-			res := n.Exec.VerifSingleCommitValidator(&p2p.Message{Data: encodeCommits(sc)})
+			res := n.Exec.VerifSingleCommitValidator(&p2p.Message{Data: encodeCommits(batch...)})
 			if res == p2p.ValidationAccept {
 				t.Fatalf("singleCommitValidator returned Accept (would re-gossip)")
 			}
-			hist = append(hist, fmt.Sprintf("gossip single commit h=%d signer=%d kind=%s -> %v", h, signer, kind, res))
+			hist = append(hist, fmt.Sprintf("gossip message [%s] -> %v", strings.Join(desc, "; "), res))
+		}
+		// cross-change messages: commits for heights on both sides of a validator-set change in ONE message, signed by
+		// members of either set (a validator that left, one that joined, one that stayed)
+		if pc > 100 {
+			var changes []uint32
+			for k := pc - 99; k <= pc; k++ {
+				if ex, _ := n.Exec.VerifLiskBFT().API().ExistBFTParameters(n.Store(), k); ex && k > 1 {
+					changes = append(changes, k)
+				}
+			}
+			for _, k := range changes {
+				if k <= pc-99 || k >= pc {
+					continue
+				}
+				lo := pc - 99
+				if cert+1 > lo {
+					lo = cert + 1
+				}
+				if lo > k-1 {
+					continue
+				}
+				h1 := rapid.Uint32Range(lo, k-1).Draw(t, "beforeChange")
+				h2 := rapid.Uint32Range(k, pc).Draw(t, "afterChange")
+				p1, err1 := n.CurrentParams(h1)
+				p2, err2 := n.CurrentParams(h2)
+				if err1 != nil || err2 != nil {
+					continue
+				}
+				union := append(append([]int{}, p1.Idx...), p2.Idx...)
+				mk := func(h uint32, signer int) *certificate.SingleCommit {
+					hd, _ := n.Chain.DataAccess().GetBlockHeaderByHeight(h)
+					return certificate.NewSingleCommit(hd, keys[signer].Addr, node.ChainID, keys[signer].BLSPriv)
+				}
+				sA := rapid.SampledFrom(union).Draw(t, "crossSignerA")
+				sB := rapid.SampledFrom(union).Draw(t, "crossSignerB")
+				first, second := mk(h1, sA), mk(h2, sB)
+				order := "before,after"
+				if rapid.Bool().Draw(t, "crossOrder") {
+					first, second = second, first
+					order = "after,before"
+				}
+				res := n.Exec.VerifSingleCommitValidator(&p2p.Message{Data: encodeCommits(first, second)})
+				hist = append(hist, fmt.Sprintf("gossip cross-change message (change at %d): [h=%d signer=%d; h=%d signer=%d] order %s -> %v", k, h1, sA, h2, sB, order, res))
+				invalidOffered = true
+				evid.R.Label("cross-change-message", 1)
+			}
 		}
 		// own certification (what the generator does on finalization)
 		if rapid.Bool().Draw(t, "certify") && pc > 0 {
